@@ -18,7 +18,7 @@ INFO = {
                    "receive Reduced on every path (this is the 'canonical field element / never crashes' clause: from_bigint returns None "
                    "for a value >= p and the unwrap panics); R19-4 every field division, ruint division/remainder and modular inverse in both "
                    "evaluators is dominated by a test that the divisor is non-zero, shift amounts are bounded before use, and no operator arm "
-                   "can reach a panic for some operand (debug assertions included). R19-5: the integer quotient and remainder arms of both evaluators are `b == 0 -> 0, else a div b / a rem b` of the whole 256-bit values, with no other case distinction; R19-4 additionally requires every truncated read of a shift amount (low byte, low limb) to be dominated by a bound on the whole value that makes the truncation exact.",
+                   "can reach a panic for some operand (debug assertions included). R19-5: the integer quotient and remainder arms of both evaluators are `b == 0 -> 0, else a div b / a rem b` of the whole 256-bit values, with no other case distinction; R19-4 additionally requires every truncated read of a shift amount (low byte, low limb) to be dominated by a bound on the whole value that makes the truncation exact. R19-7: fr_to_u256 and u256_to_fr are the identity on whole values: one unconditional path over all four limbs.",
     "not_decided": "numeric conformance of each operator with circom (e.g. shifts by k > p/2 return 0 here; 254-bit mask semantics of shl); "
                    "agreement of integer and Montgomery evaluators as values",
     "assumptions": ["Fr::into_bigint returns the canonical representative (< p); ruint x/y <= x and x%y <= x for y != 0; p > 2^253 so that "
